@@ -329,6 +329,36 @@ func selftest(verbose bool) error {
 	for _, tc := range []struct {
 		fn  string
 		bad bool
+	}{{"ReflectOk", false}, {"ReflectBad", true}, {"ReflectUnguarded", true}} {
+		f := u.Func(fx, tc.fn)
+		if f == nil {
+			return fmt.Errorf("fixture %s missing", tc.fn)
+		}
+		anyBad, n := false, 0
+		for _, rc := range kindRestrictedCalls(f) {
+			n++
+			if rc.Bad != "" {
+				anyBad = true
+			}
+		}
+		if n == 0 {
+			return fmt.Errorf("fixture %s: no reflect accessor call recognised", tc.fn)
+		}
+		expect("reflect-accessor/"+tc.fn, anyBad, tc.bad)
+	}
+	for _, tc := range []struct {
+		fn  string
+		bad bool
+	}{{"RecoverOk", false}, {"RecoverBad", true}, {"RecoverRepanics", false}} {
+		f := u.Func(fx, tc.fn)
+		if f == nil {
+			return fmt.Errorf("fixture %s missing", tc.fn)
+		}
+		expect("recover-reports-failure/"+tc.fn, len(swallowedPanics(f)) > 0, tc.bad)
+	}
+	for _, tc := range []struct {
+		fn  string
+		bad bool
 	}{{"GoLoopOk", false}, {"GoLoopBad", true}} {
 		f := u.Func(fx, tc.fn)
 		if f == nil {
